@@ -125,7 +125,7 @@ theorem nz_rat_pieces (wsp dz2 wss wpp : Rat) :
   ⟨rfl, rfl, rfl, rfl⟩
 
 /-- glue (None handling of the autocorrelations) that the hand model mirrors is unchanged -/
-theorem nz_glue_pinned : Gen.pinFromCorrdataGlue = "3ea980466cce2fe7" := by decide
+theorem nz_glue_pinned : Gen.pinFromCorrdataGlue = "1fd75634c0721378" := by decide
 
 /-- normalising a histogram makes its integral over the binning 1 (norm = nansum of the
     generated argument, all entries finite) -/
